@@ -49,18 +49,23 @@ def generate(rng, tier="quick"):
     if mode == "threads":
         mix = [("ed25519", 14), ("i1024", 25), ("i2048", 3), ("small", 34), ("medium", 10), ("toyed", 14)]
     psets = []
-    base_groups = [gen.gen_group(rng, mix) for _ in range(rng.choice([1, 1, 2, 3]))]
+    base_groups = []
+    for _ in range(rng.choice([1, 1, 2, 3])):
+        while True:
+            g = gen.gen_group(rng, mix)
+            if gen.usable_pspec({"group": g}):
+                base_groups.append(g)
+                break
     nodes = []
     lanes = []
     for p in range(npairs):
         # parameter set: often the shared one, sometimes custom seeds over the SAME group object
-        while True:
-            g = rng.choice(base_groups)
-            ps = {"group": g}
-            if rng.random() < 0.4:
-                ps = gen.gen_seeds(rng, ps)
-            if gen.usable_pspec(ps):
-                break
+        g = rng.choice(base_groups)
+        ps = {"group": g}
+        if rng.random() < 0.4:
+            ps = gen.gen_seeds(rng, dict(ps))
+            if not gen.usable_pspec(ps):
+                ps = {"group": g}
         if ps in psets:
             pi = psets.index(ps)
         else:
